@@ -3,6 +3,12 @@
 NOT_YET = 'rules for this property are designed (DESIGN.md section 3) but not armed yet; not claimed until they pass their self-test and floors'
 
 CLAIMS = {
+    'C11': {
+        'text': 'Decides the copy-on-write discipline that value semantics of explicit tree/finite automata rests on: every mutation of a shared rule store '
+                '(state->cluster map, cluster, tuple set) reached through a shared_ptr uses a pointer that is Unique (from unique*()), Fresh or guarded by .unique(); '
+                'the unique*() functions clone when shared; hash-consed tuples are never mutated. A necessary condition of copy isolation; independence from process history in general is not decided.',
+        'note': 'trusted: clang 14 AST, exporter; provenance analysis is intra-procedural (parameters/members/elements are Shared, unresolved is unknown and only costs the floor)',
+    },
     'C20': {
         'text': 'Decides named undefined-behaviour classes on every path of every function body (incl. template instantiations): '
                 'INIT (a scalar local read with no reaching write, incl. through by-reference lambda captures) and FALLOFF (a value-returning '
